@@ -343,9 +343,17 @@ fn ec_one(path: &[(autosar_data::ElementName, autosar_data_specification::Elemen
                     let (lo, hi) = match &range { Ok((a, b)) => (*a, *b), Err(_) => (0, before.len()) };
                     let choices = [lo, hi, if lo > 0 { lo - 1 } else { hi + 1 }, hi + 1, usize::MAX];
                     let p = choices[rng.below(choices.len())];
+                    let donor_before: Vec<Element> = sib.sub_elements().collect();
                     let r = cur.move_element_here_at(c, p);
                     stats[2] += 1;
                     let after: Vec<ElementName> = cur.sub_elements().map(|e| e.element_name()).collect();
+                    // the parent the element came from: the same children in the same order, without the moved one (or untouched when refused)
+                    let donor_after: Vec<Element> = sib.sub_elements().collect();
+                    let donor_want: Vec<Element> = if r.is_ok() { donor_before.iter().filter(|e| *e != c).cloned().collect() } else { donor_before.clone() };
+                    if donor_after != donor_want {
+                        return Err(format!("after move_element_here_at({}, {}) from a sibling the parent the element came from has the children {:?}, expected {:?} (the old children in their order{})", n, p,
+                            donor_after.iter().map(|e| e.element_name()).collect::<Vec<_>>(), donor_want.iter().map(|e| e.element_name()).collect::<Vec<_>>(), if r.is_ok() { ", without the moved one" } else { "" }));
+                    }
                     let expect_ok = range.is_ok() && lo <= p && p <= hi;
                     match (&r, expect_ok) {
                         (Ok(_), false) => return Err(format!("move_element_here_at({}, {}) from a sibling succeeded although the reported range is {:?} [parent {} children {:?}]", n, p, range.as_ref().ok(), cur.element_name(), before)),
